@@ -300,13 +300,14 @@ namespace Src
 
 variable {υ : Type}
 
-/-- **plain_roundtrip**: a valid plain configuration loaded by a Manager that has no source is saved in full,
-and loading the saved form (fresh Manager) gives the same effective configuration, still without a source. -/
-theorem plain_roundtrip (web : υ → Remote υ) (m : Mgr υ) (c : Nat) (hs : m.source = none) :
+/-- **plain_roundtrip**: a valid plain configuration given to `LoadJSON`, on *any* Manager state (a source set
+by an earlier load included): accepted, the source is forgotten, the configuration is saved in full, and a fresh
+Manager loading the saved form ends in the same state. -/
+theorem plain_roundtrip (web : υ → Remote υ) (m : Mgr υ) (c : Nat) :
     let r := loadJSON web m (.plain c true)
-    r.2 = true ∧ r.1.cfg = some c ∧ r.1.source = none ∧ save r.1 = some (.plain c true) ∧
+    r.2 = true ∧ r.1 = { source := none, cfg := some c } ∧ save r.1 = some (.plain c true) ∧
     loadJSON web fresh (.plain c true) = ({ source := none, cfg := some c }, true) := by
-  simp [loadJSON, save, hs, fresh]
+  simp [loadJSON, save, fresh]
 
 /-- **source_roundtrip**: for every URL whose remote body is a valid plain configuration (status < 300), on
 *any* Manager state: the load is accepted, the Manager remembers the URL, the sections hold the remote
@@ -379,48 +380,68 @@ theorem failed_fetch_refused (web : υ → Remote υ) (m : Mgr υ) (u : υ)
   · simp [fromHTTP, h]
   · simp [fromHTTP, h, hc]
 
-/-- nothing ever clears `Source`: once set it stays set under every operation -/
-theorem source_never_cleared (web : υ → Remote υ) (m : Mgr υ) (o : Op υ) (h : m.source ≠ none) :
-    (step web m o).1.source ≠ none := by
+/-- `Source` is cleared only by a parsable plain document given to `LoadJSON` directly: under every other
+operation (unparsable document, sourced document whatever the remote answers, `LoadJSONFromHTTPSource`,
+`Default()`) a source that is set stays set -/
+theorem source_cleared_only_by_plain (web : υ → Remote υ) (m : Mgr υ) (o : Op υ) (h : m.source ≠ none)
+    (hc : (step web m o).1.source = none) : ∃ c v, o = .load (.plain c v) := by
   cases o with
-  | dflt => simpa [step, dflt] using h
+  | dflt => exact absurd (by simpa [step, dflt] using hc) h
   | http u =>
+    exfalso; revert hc
     simp only [step, fromHTTP]
     cases web u with
     | down => simp
     | resp code body => by_cases hc : code ≥ 300 <;> cases body <;> simp [hc, loadNested]
   | load d =>
     cases d with
-    | garbage => simpa [step, loadJSON] using h
-    | plain c v => simpa [step, loadJSON] using h
+    | garbage => exact absurd (by simpa [step, loadJSON] using hc) h
+    | plain c v => exact ⟨c, v, rfl⟩
     | sourced u =>
+      exfalso; revert hc
       simp only [step, loadJSON, fromHTTP]
       cases web u with
       | down => simp
       | resp code body => by_cases hc : code ≥ 300 <;> cases body <;> simp [hc, loadNested]
 
-/-- the full statement for a re-used Manager: whatever happened before, an accepted plain configuration is
-what gets saved -/
-def reuse_full (υ : Type) : Prop :=
-  ∀ (web : υ → Remote υ) (ops : List (Op υ)) (c : Nat),
-    save (loadJSON web (run web fresh ops).1 (.plain c true)).1 = some (.plain c true)
+/-- a parsable plain document clears the source even when its sections are then refused; an unparsable one
+leaves the Manager untouched -/
+theorem plain_clears_source (web : υ → Remote υ) (m : Mgr υ) (c : Nat) (v : Bool) :
+    (loadJSON web m (.plain c v)).1.source = none ∧ loadJSON web m .garbage = (m, false) := by
+  simp [loadJSON]
 
-/-- **The unchanged code violates it** (finding K34): after a sourced load — accepted, or refused because the
-fetch failed — the stale `Source` makes the save of a later plain configuration write `{"source": url}`. -/
-theorem reuse_full_fails : ¬ reuse_full Nat := by
-  intro h
-  have := h (fun _ => .down) [.http 7] 1
-  simp [run, step, fromHTTP, loadJSON, save, fresh] at this
+/-- **An accepted load forgets the history of the Manager**: whatever state the Manager was in, after an
+accepted document it is in exactly the state a fresh Manager reaches with that document -/
+theorem accepted_load_forgets_history (web : υ → Remote υ) (m : Mgr υ) (d : Doc υ)
+    (h : (loadJSON web m d).2 = true) : loadJSON web m d = loadJSON web fresh d := by
+  rcases (accepted_iff web m d).mp h with ⟨c, rfl⟩ | ⟨u, code, c, rfl, hw, hc⟩
+  · simp [loadJSON]
+  · have h1 := (source_roundtrip web m u code c hw hc)
+    have h2 := (source_roundtrip web fresh u code c hw hc)
+    exact Prod.ext (h1.2.1.trans h2.2.1.symm) (h1.1.trans h2.1.symm)
 
-/-- what does hold: as long as no earlier operation set a source -/
-theorem reuse_partial (web : υ → Remote υ) (m : Mgr υ) (c : Nat) (hs : m.source = none) :
-    save (loadJSON web m (.plain c true)).1 = some (.plain c true) :=
-  (plain_roundtrip web m c hs).2.2.2.1
+/-- **Re-used Manager, full statement** (false before /repo fbf34ff, finding F39): after *any* sequence of
+operations on *any* Manager, a document the loader accepts is exactly what gets saved, and a fresh Manager
+loading the saved form ends in the same state -/
+theorem reuse_full (web : υ → Remote υ) (m : Mgr υ) (ops : List (Op υ)) (d : Doc υ)
+    (h : (loadJSON web (run web m ops).1 d).2 = true) :
+    save (loadJSON web (run web m ops).1 d).1 = some d ∧
+    loadJSON web fresh d = loadJSON web (run web m ops).1 d := by
+  have hf := accepted_load_forgets_history web (run web m ops).1 d h
+  have hacc : (loadJSON web fresh d).2 = true := by rw [← hf]; exact h
+  constructor
+  · rw [hf]
+    rcases (accepted_iff web fresh d).mp hacc with ⟨c, rfl⟩ | ⟨u, code, c, rfl, hw, hc⟩
+    · exact (plain_roundtrip web fresh c).2.2.1
+    · exact (source_roundtrip web fresh u code c hw hc).2.2.1
+  · exact hf.symm
 
-/-- and exactly what happens otherwise: the plain configuration is dropped from the saved form -/
-theorem stale_source_drops_plain (web : υ → Remote υ) (m : Mgr υ) (u : υ) (c : Nat) (hs : m.source = some u) :
-    (loadJSON web m (.plain c true)).2 = true ∧ save (loadJSON web m (.plain c true)).1 = some (.sourced u) := by
-  simp [loadJSON, save, hs]
+/-- what a *refused* operation may leave behind (observation, no clause of the property covers it): a failed
+fetch keeps the URL as `Source`, so a Manager that held a valid configuration then saves `{"source": url}` -/
+theorem refused_fetch_changes_save (web : υ → Remote υ) (m : Mgr υ) (u : υ) (c : Nat)
+    (hw : web u = .down) (hm : m.cfg = some c) :
+    (loadJSON web m (.sourced u)).2 = false ∧ save (loadJSON web m (.sourced u)).1 = some (.sourced u) := by
+  simp [loadJSON, fromHTTP, hw, save, hm]
 
 /-- `Manager.Default()` does not clear a source either -/
 theorem default_keeps_source (m : Mgr υ) : (dflt m).source = m.source := rfl
@@ -432,7 +453,7 @@ example : (run (fun (u : Nat) => if u = 1 then Remote.resp 200 (.plain 5 true) e
 theorem fresh_accept_saves_same (web : υ → Remote υ) (d : Doc υ) (h : (loadJSON web fresh d).2 = true) :
     save (loadJSON web fresh d).1 = some d := by
   rcases (accepted_iff web fresh d).mp h with ⟨c, rfl⟩ | ⟨u, code, c, rfl, hw, hc⟩
-  · exact (plain_roundtrip web fresh c rfl).2.2.2.1
+  · exact (plain_roundtrip web fresh c).2.2.1
   · exact (source_roundtrip web fresh u code c hw hc).2.2.1
 
 end Src
